@@ -92,20 +92,21 @@ def chunks (bs : Bytes) : List Bytes := chunkF bs.length bs
 /-- The netstring frames read until end-of-file or a framing error (`break` at :1523). -/
 def fileItems (bs : Bytes) : List Bytes := (nsReadAll none (chunks bs)).items
 
-/-- Elements up to the first `none` (a record that does not decode ends the file, :1517-1524). -/
+/-- Elements up to the first `none` (a record that does not decode — exception :1517-1524 — or that decodes to
+    null — :1526-1532, the repair of F-C12b — ends the file). -/
 def takeSome {α : Type} : List (Option α) → List α
   | [] => []
   | none :: _ => []
   | some a :: r => a :: takeSome r
 
-/-- The records ReplayLog gets out of one file; `dec` = JsonDecode + field access (`none` = exception). -/
+/-- The records ReplayLog gets out of one file; `dec` = JsonDecode + field access (`none` = exception or null). -/
 def entriesOf (dec : Bytes → Option Entry) (bs : Bytes) : List Entry := takeSome ((fileItems bs).map dec)
 
-/-! ## ReplayLog (apilistener.cpp:1439-1585) -/
+/-! ## ReplayLog (apilistener.cpp:1439-1593) -/
 
 inductive Out
-  | msg (e : Entry)          -- client->SendRawMessage(pmessage->Get("message")), :1546
-  | setPos (v : Int)         -- log::SetLogPosition {log_position: v}, :1560-1571
+  | msg (e : Entry)          -- client->SendRawMessage(pmessage->Get("message")), :1554
+  | setPos (v : Int)         -- log::SetLogPosition {log_position: v}, :1568-1579
   deriving DecidableEq, Repr
 
 structure RState where
@@ -115,17 +116,17 @@ structure RState where
   count : Nat
   deriving DecidableEq, Repr
 
-/-- The two `continue` guards of :1527-1541: already confirmed, or the peer's zone may not see the object
+/-- The two `continue` guards of :1535-1549: already confirmed, or the peer's zone may not see the object
     (`vis o` = the object exists and `target_zone->CanAccessObject` holds). -/
 def skipEntry (vis : Nat → Bool) (peer : Int) (e : Entry) : Bool :=
   decide (e.ts ≤ peer) || (match e.sec with | some o => !vis o | none => false)
 
-/-- One record of file `fname` (:1527-1572). -/
+/-- One record of file `fname` (:1535-1580). -/
 def stepEntry (vis : Nat → Bool) (st : RState) (x : Int × Entry) : RState :=
   if skipEntry vis st.peer x.2 then st
   else
-    let st1 : RState := { st with out := st.out ++ [.msg x.2], count := st.count + 1, peer := x.2.ts }  -- :1546-1558
-    if x.1 * usec > st.logpos + 10 * usec then                                       -- :1560
+    let st1 : RState := { st with out := st.out ++ [.msg x.2], count := st.count + 1, peer := x.2.ts }  -- :1554-1566
+    if x.1 * usec > st.logpos + 10 * usec then                                       -- :1568
       { st1 with logpos := x.1 * usec, out := st1.out ++ [.setPos (x.1 * usec)] }
     else st1
 
@@ -158,14 +159,14 @@ structure ReplayResult where
   fuelOut : Bool
   deriving DecidableEq, Repr
 
-/-- The loop (:1467-1584): unlocked passes while the previous pass sent more than `limit`, then one pass
+/-- The loop (:1467-1592): unlocked passes while the previous pass sent more than `limit`, then one pass
     under the log lock.  `count` = `none` is the initial -1. -/
 def replayLoop (pass : Int → Int → RState) (limit : Nat) : Nat → Option Nat → Int → Int → List Out → Nat → ReplayResult
   | 0, _, peer, _, acc, n => ⟨acc, peer, n, true⟩
   | fuel + 1, count, peer, logpos, acc, n =>
     let last := match count with | none => false | some c => !(decide (c > limit))   -- :1473-1479
     let r := pass peer logpos
-    if last then ⟨acc ++ r.out, r.peer, n + 1, false⟩                                 -- :1581-1583
+    if last then ⟨acc ++ r.out, r.peer, n + 1, false⟩                                 -- :1589-1591
     else replayLoop pass limit fuel (some r.count) r.peer r.logpos (acc ++ r.out) (n + 1)
 
 /-- ReplayLog for an endpoint with `log_duration = dur` and local log position `pos`.
